@@ -3,6 +3,8 @@
 package zzinv
 
 import (
+	sdk "github.com/cosmos/cosmos-sdk/types"
+
 	basketapi "github.com/regen-network/regen-ledger/api/v2/regen/ecocredit/basket/v1"
 	marketapi "github.com/regen-network/regen-ledger/api/v2/regen/ecocredit/marketplace/v1"
 	api "github.com/regen-network/regen-ledger/api/v2/regen/ecocredit/v1"
@@ -75,9 +77,12 @@ func CheckC06(a []byte, b uint64) {
 	W = 1
 	zz.Assert(zz.AllWritten(TSellOrder, func(r *marketapi.SellOrder) bool {
 		pos := zz.QLt(q0(), zz.QParse(r.Quantity))
-		ask := zz.QParse(r.AskAmount)
-		return and(AmountOK(r.Quantity), pos, zz.QLt(q0(), ask), zz.QIsInt(ask), zz.DecPlain(r.AskAmount),
-			exists(TBatch, r.BatchKey), exists(TMarket, r.MarketId))
+		ask, isInt := sdk.NewIntFromString(r.AskAmount)
+		askPos := false
+		if isInt {
+			askPos = ask.IsPositive()
+		}
+		return and(AmountOK(r.Quantity), pos, isInt, askPos, exists(TBatch, r.BatchKey), exists(TMarket, r.MarketId))
 	}), "C06 every written open order has positive quantity within precision, positive integer ask, existing batch and market")
 	W = 0
 }
@@ -193,4 +198,19 @@ func CheckSealed() {
 		sealed := zz.And(pe, zz.Not(pre.Open))
 		return zz.Implies(sealed, zz.And(zz.Not(post.Open), zz.StrEq(pre.Metadata, post.Metadata)))
 	}), "C08 a sealed batch is never re-opened and its metadata never changes")
+}
+
+// BalanceBefore: a sorts strictly before b in the basket's (start date, denom) order, the
+// order of the BasketBalance start-date index (an unset date sorts as the epoch).
+func BalanceBefore(a, b *basketapi.BasketBalance) bool {
+	as, an := int64(0), int32(0)
+	if a.BatchStartDate != nil {
+		as, an = a.BatchStartDate.Seconds, a.BatchStartDate.Nanos
+	}
+	bs, bn := int64(0), int32(0)
+	if b.BatchStartDate != nil {
+		bs, bn = b.BatchStartDate.Seconds, b.BatchStartDate.Nanos
+	}
+	sameTime := zz.And(as == bs, an == bn)
+	return zz.Or(as < bs, zz.Or(zz.And(as == bs, an < bn), zz.And(sameTime, zz.StrLess(a.BatchDenom, b.BatchDenom))))
 }
